@@ -933,7 +933,7 @@ def chomsky_cases(draw, tier):
     phase = draw(st.integers(1, 5))
     S0 = draw(st.sampled_from(["T", "Z", "S"]))
     if S0 in G0["V"]:
-        S0 = next(x for x in "ZYXWT" if x not in G0["V"])
+        S0 = next(x for x in "ZYXWTUVQPONMLKJIHGFEDCBAS" if x not in G0["V"])      # the generated grammars have at most a handful of variables
     cls = draw(st.sampled_from(["library_key", "key_mutation", "key_mutation", "earlier_phase", "unchanged", "independent", "ill_formed"]))
     ans = None
     if cls in ("library_key", "key_mutation", "earlier_phase"):
